@@ -19,3 +19,6 @@ KNOWN_NAMES = frozenset([
 
 # every class name of the package at the same commit
 KNOWN_CLASSES = frozenset(['AesProvider', 'AnyField', 'ApplicationModeField', 'BaseField', 'BoolField', 'BsonConfigFormat', 'BytesField', 'ChallengeField', 'Config', 'ConfigFormat', 'ConfigType', 'ConfigTypeField', 'ContainerValueMixin', 'DictField', 'DictProxy', 'DigestValue', 'EncryptionError', 'FeatureFlagField', 'FeatureFlagFieldMixin', 'Field', 'FilenameField', 'FloatField', 'HostnameField', 'IEncryptionProvider', 'IPv4AddressField', 'IPv4NetworkField', 'IncludeField', 'IncludeFieldMixin', 'InstanceMethodField', 'InstanceMethodFieldMixin', 'IntField', 'JsonConfigFormat', 'KeyFile', 'ListField', 'ListProxy', 'LogLevelField', 'NumberField', 'PickleConfigFormat', 'PortField', 'Schema', 'SecureField', 'StringField', 'UrlField', 'ValidationError', 'VirtualField', 'VirtualFieldMixin', 'XmlConfigFormat', 'XorProvider', 'YamlConfigFormat'])
+
+# module / class level tuple and list constants of the package at the same commit (loops over these are *not* unrolled)
+KNOWN_TABLES = frozenset(['ENCODINGS', 'FALSE_VALUES', 'FORMATS', 'TRUE_VALUES', '__all__'])
